@@ -6,6 +6,28 @@ Lemma tags_cons lv p b l :
   tags lv ((p, b) :: l) = ((if modifies b then [(lv, p)] else []) ++ tags lv l)%list.
 Proof. unfold tags. simpl. destruct (modifies b); reflexivity. Qed.
 
+Lemma steps_cons lv m l v : steps lv (m :: l) v = steps lv l (apply_beh lv m v).
+Proof. reflexivity. Qed.
+
+Lemma steps_app lv a b v : steps lv (a ++ b) v = steps lv b (steps lv a v).
+Proof. unfold steps. apply fold_left_app. Qed.
+
+(* without a stripping modifier the value only grows: initial value plus the tags *)
+Lemma steps_tags lv l : forall v,
+  Forall (fun m => strips (snd m) = false) l -> steps lv l v = (v ++ tags lv l)%list.
+Proof.
+  induction l as [|[p b] r IH]; intros v H.
+  - simpl. rewrite app_nil_r. reflexivity.
+  - inversion H as [|x y Hx Hy]; subst. rewrite steps_cons, tags_cons, IH by exact Hy.
+    unfold apply_beh. simpl in *. destruct b; simpl; try reflexivity; try discriminate.
+    rewrite <- app_assoc. reflexivity.
+Qed.
+
+(* a stripping modifier is not undone: what comes before it does not matter *)
+Lemma steps_strip lv pre p post v :
+  steps lv (pre ++ (p, BStrip) :: post) v = steps lv post [].
+Proof. rewrite steps_app, steps_cons. reflexivity. Qed.
+
 (* the invoked modifiers are those of the order model *)
 Lemma thread_called lv l : forall v, map fst (fst (thread lv l v)) = called l.
 Proof.
@@ -18,39 +40,31 @@ Qed.
 (* the value left after the loop *)
 Lemma thread_out lv l : forall v, snd (thread lv l v) = out_decl lv l v.
 Proof.
-  unfold out_decl. induction l as [|[p b] r IH]; intros v.
-  - simpl. rewrite app_nil_r. reflexivity.
-  - rewrite tags_cons.
-    destruct b; simpl;
-      try (specialize (IH v); destruct (thread lv r v) as [s o]; simpl in *; exact IH).
-    + specialize (IH (v ++ [(lv, p)])%list). destruct (thread lv r (v ++ [(lv, p)])%list) as [s o].
-      simpl in *. rewrite IH. destruct (failed r); [reflexivity|]. rewrite <- app_assoc. reflexivity.
-    + reflexivity.
+  unfold out_decl. induction l as [|[p b] r IH]; intros v; [reflexivity|].
+  assert (G : forall v', snd (let '(s, o) := thread lv r v' in ((p, v) :: s, o)) =
+                         match failed r with Some _ => None | None => Some (steps lv r v') end).
+  { intros v'. specialize (IH v'). destruct (thread lv r v') as [s o]. simpl in *. exact IH. }
+  destruct b; simpl; try apply G. reflexivity.
 Qed.
 
 Lemma seen_decl_cons lv p b r v :
   is_fail b = false ->
-  seen_decl lv ((p, b) :: r) v =
-  (p, v) :: seen_decl lv r (v ++ (if modifies b then [(lv, p)] else []))%list.
+  seen_decl lv ((p, b) :: r) v = (p, v) :: seen_decl lv r (apply_beh lv (p, b) v).
 Proof.
   intros Hb. unfold seen_decl. simpl called. rewrite Hb. simpl List.length.
-  rewrite <- cons_seq. simpl map. rewrite app_nil_r. f_equal.
+  rewrite <- cons_seq. simpl map. f_equal.
   rewrite <- seq_shift, map_map. apply map_ext. intros i. simpl nth_error. simpl firstn.
-  rewrite tags_cons. destruct (nth_error r i) as [[q c]|]; [|reflexivity].
-  rewrite app_assoc. reflexivity.
+  rewrite steps_cons. reflexivity.
 Qed.
 
 (* what each invoked modifier saw *)
 Lemma thread_seen lv l : forall v, fst (thread lv l v) = seen_decl lv l v.
 Proof.
   induction l as [|[p b] r IH]; intros v; [reflexivity|].
-  destruct b; try (rewrite seen_decl_cons by reflexivity; simpl;
-                   specialize (IH v); destruct (thread lv r v) as [s o]; simpl in *;
-                   rewrite app_nil_r; congruence).
-  - rewrite seen_decl_cons by reflexivity. simpl.
-    specialize (IH (v ++ [(lv, p)])%list). destruct (thread lv r (v ++ [(lv, p)])%list) as [s o].
-    simpl in *. congruence.
-  - unfold seen_decl. simpl. rewrite app_nil_r. reflexivity.
+  assert (G : forall v', fst (let '(s, o) := thread lv r v' in ((p, v) :: s, o)) = (p, v) :: seen_decl lv r v').
+  { intros v'. specialize (IH v'). destruct (thread lv r v') as [s o]. simpl in *. congruence. }
+  destruct b; try (rewrite seen_decl_cons by reflexivity; simpl; apply G).
+  reflexivity.
 Qed.
 
 Lemma thread_decl lv l v : thread lv l v = (seen_decl lv l v, out_decl lv l v).
@@ -67,7 +81,7 @@ Qed.
 
 Lemma vlayer_decl_nil lv inner v : vlayer_decl lv [] [] inner v = inner v.
 Proof.
-  unfold vlayer_decl, out_decl, seen_decl, tags. simpl. rewrite app_nil_r.
+  unfold vlayer_decl, out_decl, seen_decl. simpl.
   destruct (inner v) as [li [|t]]; simpl; rewrite ?app_nil_r; reflexivity.
 Qed.
 
@@ -152,7 +166,7 @@ Proof. intros H. apply (run_all_ok l H). Qed.
    modifying modifiers before it *)
 Lemma seen_at lv l v i p b :
   Forall notfail (firstn i l) -> nth_error l i = Some (p, b) ->
-  nth_error (seen_decl lv l v) i = Some (p, (v ++ tags lv (firstn i l))%list).
+  nth_error (seen_decl lv l v) i = Some (p, steps lv (firstn i l) v).
 Proof.
   intros Hpre Hn. unfold seen_decl.
   assert (Hlt : i < List.length (called l)).
@@ -169,9 +183,9 @@ Proof.
 Qed.
 
 Lemma vlayer_all_ok lv rq rs inner v li t :
-  Forall notfail rq -> Forall notfail rs -> inner (v ++ tags lv rq)%list = (li, VRet t) ->
+  Forall notfail rq -> Forall notfail rs -> inner (steps lv rq v) = (li, VRet t) ->
   vlayer_decl lv rq rs inner v =
-  ((vreq lv (seen_decl lv rq v) ++ li ++ vresp lv (seen_decl lv rs t))%list, VRet (t ++ tags lv rs)%list).
+  ((vreq lv (seen_decl lv rq v) ++ li ++ vresp lv (seen_decl lv rs t))%list, VRet (steps lv rs t)).
 Proof.
   intros Hq Hs Hi. unfold vlayer_decl, out_decl.
   rewrite (failed_none_of_notfail rq Hq), Hi, (failed_none_of_notfail rs Hs). reflexivity.
@@ -192,11 +206,11 @@ Section ValuesExplicit.
     Forall notfail rqe -> Forall notfail rse -> Forall notfail rqb -> Forall notfail rsb ->
     vstack R pe pb (Some t0) v =
     ((vreq LEndpoint (seen_decl LEndpoint rqe v) ++
-      (vreq LBackend (seen_decl LBackend rqb (v ++ tags LEndpoint rqe)) ++
-       [VBackend ((v ++ tags LEndpoint rqe) ++ tags LBackend rqb)] ++
+      (vreq LBackend (seen_decl LBackend rqb (steps LEndpoint rqe v)) ++
+       [VBackend (steps LBackend rqb (steps LEndpoint rqe v))] ++
        vresp LBackend (seen_decl LBackend rsb t0)) ++
-      vresp LEndpoint (seen_decl LEndpoint rse (t0 ++ tags LBackend rsb)))%list,
-     VRet ((t0 ++ tags LBackend rsb) ++ tags LEndpoint rse)%list).
+      vresp LEndpoint (seen_decl LEndpoint rse (steps LBackend rsb t0)))%list,
+     VRet (steps LEndpoint rse (steps LBackend rsb t0))).
   Proof.
     intros H1 H2 H3 H4. rewrite vstack_decl_eq. unfold vstack_decl. fold rqe rse rqb rsb.
     apply vlayer_all_ok; [exact H1|exact H2|].
@@ -212,7 +226,7 @@ Lemma erase_vresp lv s : map erase (vresp lv s) = map (EvResp lv) (map fst s).
 Proof. unfold vresp. rewrite !map_map. reflexivity. Qed.
 
 Lemma vrun_refines_order lv rq rs inner v li ri x :
-  inner (v ++ tags lv rq)%list = (li, ri) ->
+  inner (steps lv rq v) = (li, ri) ->
   map erase (fst (plugin_vrun lv rq rs inner v)) =
   fst (plugin_run lv rq rs (map erase li,
                             match ri with VRet _ => ORet (Some x) ENone | VNone => ORet None ENone end)).
